@@ -44,11 +44,36 @@ try:
     ok = ('267 passed' in base and '3 failed' in base and base.split(' in ')[0] == patched.split(' in ')[0] and d0.returncode == 0 and d1.returncode == 1)
     meta['confirmed'] = ok
     print('confirm:', base, '|', patched, '| demo', d0.returncode, '->', d1.returncode, '| CONFIRMED' if ok else '| NOT CONFIRMED')
+    if ok and '--in-repo' not in sys.argv:
+        # run the registered quick check(s) against the patched scratch worktree (VERIF_REPO) - used while /repo itself is
+        # busy with a long background run; equivalent to patching /repo because the checks import tapescript from VERIF_REPO
+        dest = os.path.join(V, 'seeded', '%s-%s' % (pid, name))
+        os.makedirs(dest, exist_ok=True)
+        open(os.path.join(dest, 'patch.diff'), 'w').write(newpatch)
+        shutil.copy(demo, os.path.join(dest, 'demo.py'))
+        if os.path.exists(notes):
+            shutil.copy(notes, os.path.join(dest, 'notes.md'))
+        results = {}
+        out = tempfile.mkdtemp(prefix='seed-out-')
+        for p_ in [pid] + also:
+            t0 = time.time()
+            rr = sh('cd %s && VERIF_REPO=%s VERIF_OUT=%s ./check %s --tier quick --no-shrink' % (V, wt, out, p_), timeout=3600)
+            buckets = [l.strip()[:300] for l in rr.stdout.splitlines() if l.startswith('  bucket')]
+            results[p_] = {'exit': rr.returncode, 'caught': rr.returncode == 1, 'buckets': buckets[:6], 'wall_s': round(time.time() - t0, 1)}
+            print(p_, 'exit', rr.returncode, 'CAUGHT' if rr.returncode == 1 else 'MISSED' if rr.returncode == 0 else 'HARNESS-ERROR', buckets[:2])
+        shutil.rmtree(out, ignore_errors=True)
+        meta['ran'].append('VERIF_REPO=<that patched worktree> ./check <ID> --tier quick --no-shrink (VERIF_OUT scratch) for %s' % ', '.join([pid] + also))
+        meta['check_results'] = results
+        meta['caught_by'] = [p_ for p_, v in results.items() if v['caught']]
+        json.dump(meta, open(os.path.join(dest, 'meta.json'), 'w'), indent=1)
+        print('stored', dest)
 finally:
     sh('git -C /repo worktree remove --force %s' % wt)
     shutil.rmtree(wt, ignore_errors=True)
 if not meta.get('confirmed'):
     print(json.dumps(meta, indent=1)[:1500]); sys.exit(4)
+if '--in-repo' not in sys.argv:
+    sys.exit(0)
 dest = os.path.join(V, 'seeded', '%s-%s' % (pid, name))
 os.makedirs(dest, exist_ok=True)
 open(os.path.join(dest, 'patch.diff'), 'w').write(newpatch)
